@@ -140,8 +140,8 @@ def run(W, cfg):
 
 def cfg_chain(tier, seed):
     """fields that overlap only transitively (A-C-B chains) in every order: all of them must be summed coherently"""
-    chain = [{'shape': [1, 2], 'offset': [0, -2]}, {'shape': [1, 2], 'offset': [0, 2]}, {'shape': [1, 3], 'offset': [0, 0]}]
-    chain2 = [{'shape': [2, 2], 'offset': [-2, 0]}, {'shape': [2, 2], 'offset': [2, 0]}, {'shape': [3, 1], 'offset': [0, 0]}, {'shape': [1, 1], 'offset': [3, 0]}]
+    chain = [{'shape': [1, 2], 'offset': [0, -2]}, {'shape': [1, 2], 'offset': [0, 2]}, {'shape': [1, 5], 'offset': [0, 0]}]
+    chain2 = [{'shape': [2, 2], 'offset': [-2, 0]}, {'shape': [2, 2], 'offset': [2, 0]}, {'shape': [5, 1], 'offset': [0, 0]}, {'shape': [1, 1], 'offset': [3, 0]}]
     out = [{'S': [3, 7], 'fields': [chain[i] for i in perm], 'T': [3, 7]} for perm in itertools.permutations(range(3))]
     out += [{'S': [7, 3], 'fields': [chain2[i] for i in perm], 'T': [7, 3]} for perm in list(itertools.permutations(range(4)))[::3]]
     return out, len(out), True
